@@ -510,6 +510,18 @@ def low6 : Array UInt32 := #[0, 1, 0xFFF, 0x1000, 0x1001, 0x1FFF]
 @[inline] def sweepInput (thorough : Bool) (idx : UInt64) : UInt32 :=
   if thorough then idx.toUInt32 else (((idx / 6) <<< 13).toUInt32) ||| low6[(idx % 6).toNat]!
 
+/-- one block of the sweep: tail-recursive with unboxed accumulators (hash, non-trivial count, spec failures) -/
+partial def blockLoop (f : UInt32 → UInt32) (spec : UInt32 → UInt32 → Bool) (exact thorough : Bool)
+    (i hi h nt sf : UInt64) : UInt64 × UInt64 × UInt64 :=
+  if i ≥ hi then (h, nt, sf)
+  else
+    let x := sweepInput thorough i
+    let r0 := f x
+    let r := if exact then r0 else canon r0
+    let nt := if r != x && (r &&& 0x7FFFFFFF) != 0 then nt + 1 else nt
+    let sf := if spec x r then sf else sf + 1
+    blockLoop f spec exact thorough (i + 1) hi ((h ^^^ r.toUInt64) * 0x100000001b3) nt sf
+
 def runSweep (op : String) (thorough : Bool) (b0 b1 : UInt64) : IO UInt32 := do
   let some f := sweepFn op | do IO.eprintln s!"unknown sweep op {op}"; return 3
   let spec := sweepSpec op
@@ -522,17 +534,19 @@ def runSweep (op : String) (thorough : Bool) (b0 b1 : UInt64) : IO UInt32 := do
     let lo := b <<< 20
     if lo ≥ total then break
     let hi : UInt64 := if lo + 0x100000 > total then total else lo + 0x100000
-    let mut h : UInt64 := 0xcbf29ce484222325
-    let mut i := lo
-    while i < hi do
-      let x := sweepInput thorough i
-      let r := if exact then f x else canon (f x)
-      h := (h ^^^ r.toUInt64) * 0x100000001b3
-      if r != x && (r &&& 0x7FFFFFFF) != 0 then nontrivial := nontrivial + 1
-      if !(spec x r) then
-        specfail := specfail + 1
-        if specfail ≤ 5 then IO.println s!"SWEEPSPECFAIL {op} f {hex x.toUInt64} -> {hex r.toUInt64}"
-      i := i + 1
+    let (h, nt, sf) := blockLoop f spec exact thorough lo hi 0xcbf29ce484222325 0 0
+    if sf > 0 && specfail < 5 then
+      -- locate the first failing input of the block for the report
+      let mut i := lo
+      while i < hi do
+        let x := sweepInput thorough i
+        let r := if exact then f x else canon (f x)
+        if !(spec x r) then
+          IO.println s!"SWEEPSPECFAIL {op} f {hex x.toUInt64} -> {hex r.toUInt64}"
+          break
+        i := i + 1
+    nontrivial := nontrivial + nt
+    specfail := specfail + sf
     IO.println s!"H {op} {b} {String.ofList (List.replicate (16 - (hex h).length) '0')}{hex h} {hi - lo}"
     b := b + 1
   IO.println s!"SWEEP {op} nontrivial={nontrivial} specfail={specfail}"
